@@ -107,6 +107,8 @@ class FrozenList(Sequence[ValueT], Hashable):
         return self._sequence.count(value)
 
     def __eq__(self, other: Any) -> Any:
+        if isinstance(other, FrozenList):
+            return self._sequence.__eq__(other._sequence)
         return self._sequence.__eq__(other)
 
     def __hash__(self) -> Any:
